@@ -16,11 +16,12 @@ open Poupool.Firmware Poupool.FirmwareConst
 
 /-- Buffer of 32 (a line of at most 30 characters + NUL fits, the 32nd byte forces a dispatch), 3 s / 50 pps = 150
 pulses of margin, 500 ms / 10 pulses stall window, percentage = constrain(100 * .., 0, 100), end points tested with
-`>=` / `<=` without offset, terminator `***`. -/
+`>=` / `<=` without offset, `process_direction` stores the direction it read at its top, terminator `***`. -/
 theorem statement_constants :
     bufSize = 32 ∧ bufFullAt = 31 ∧ bufIgnoreAt = 32 ∧ maxRunningMarginMs = 3000 ∧ pulsesPerSecond = 50 ∧
     maxPulseMargin = 150 ∧ stallWindowMs = 500 ∧ stallMinPulses = 10 ∧ pctMul = 100 ∧ pctLo = 0 ∧ pctHi = 100 ∧
     stepOpenStrict = false ∧ stepOpenOffset = 0 ∧ stepCloseStrict = false ∧ stepCloseOffset = 0 ∧
+    prevDirRereadsVolatile = false ∧
     terminator = [42, 42, 42] ∧ emergencyTerminator = [42, 42, 42] ∧
     emergencyText = [101, 109, 101, 114, 103, 101, 110, 99, 121, 32, 115, 116, 111, 112] := by
   decide
@@ -225,98 +226,70 @@ theorem percentage_wraps_counterexample :
 
 /-! ## (b) Motor -/
 
-/-- PARTIAL (full statement: "for every event sequence, right after `process_direction` both motor pins are LOW iff
-the direction is STOP").  Proven for every event sequence in which no encoder interrupt fires INSIDE the
-`delay(100)` of `process_direction` (`noDelayPulses`): then the pins always are what `process_direction` last wrote
-for `m_previous_direction`, and right after `process_direction` they are LOW iff `m_direction = STOP`.  What is
-missing is false of the code: see `pins_low_iff_stop_counterexample`. -/
-theorem pins_low_iff_stop_partial (p c o : Int) (evs : List Ev) (h : noDelayPulses evs = true) (now : Nat) :
-    let s' := processDirection (run (init p c o) evs) now
-    ((s'.pinOpen = false ∧ s'.pinClose = false) ↔ s'.dir = .stop) := by
-  have hm := run_motor evs _ (motor_init p c o) h
-  obtain ⟨⟨hp, _⟩, hd, hpd⟩ := processDirection_motor _ now hm
-  intro s'
-  have e : s'.prevDir = s'.dir := hpd.trans hd.symm
-  unfold PinsOK at hp
-  simp only [mpOf] at hp
-  change (match s'.prevDir with
-    | .opn => s'.pinClose = true ∧ s'.pinOpen = false
-    | .cls => s'.pinOpen = true ∧ s'.pinClose = false
-    | .stop => s'.pinOpen = false ∧ s'.pinClose = false) at hp
-  rw [e] at hp
-  cases hdir : s'.dir <;> rw [hdir] at hp <;> simp_all
+/-- For EVERY event sequence – encoder interrupts inside the `delay(100)` of `process_direction` included – right
+after `process_direction` both motor pins are LOW iff the direction it read on entry is STOP.  Inside the delay the ISR
+can only leave the direction alone or set it to STOP; hence, when no interrupt fires inside the delay, "the direction
+it read" is the direction afterwards (second part), and otherwise the only possible difference is "direction STOP,
+pin still HIGH", which `stop_reaches_pins_at_next_iteration` bounds by one loop period. -/
+theorem pins_low_iff_stop (p c o : Int) (evs : List Ev) (now : Nat) :
+    let s := run (init p c o) evs
+    let s' := processDirection s now
+    (((s'.pinOpen = false ∧ s'.pinClose = false) ↔ s.dir = .stop) ∧ s'.prevDir = s.dir) ∧
+    (s'.dir = s.dir ∨ s'.dir = .stop) ∧
+    (s.dpulses = 0 → ((s'.pinOpen = false ∧ s'.pinClose = false) ↔ s'.dir = .stop)) := by
+  intro s s'
+  have hm := run_motor evs _ (motor_init p c o)
+  obtain ⟨hm', hpd, hd, hd0⟩ := processDirection_motor s now hm
+  have hl := motor_low_iff s' hm'
+  refine ⟨⟨hl.trans (by rw [hpd]), hpd⟩, hd, ?_⟩
+  intro h0
+  exact hl.trans (by rw [hpd, hd0 h0])
 
-example : noDelayPulses [.byte 111, .byte 112, .byte 101, .byte 110, .byte 10, .tick 20, .pulse] = true ∧
-    (processDirection (run (init 5 0 100) [.byte 111, .byte 112, .byte 101, .byte 110, .byte 10, .tick 20, .pulse]) 120).pinClose = true := by
+example : (processDirection (run (init 5 0 100) [.byte 111, .byte 112, .byte 101, .byte 110, .byte 10, .tick 20, .pulse]) 120).pinClose = true := by
+  decide
+
+/-- A STOP – raised by the ISR inside the relay delay or in any other way – reaches the pins at the NEXT
+`process_direction`: from every reachable state whose direction is STOP, the next loop iteration (no serial byte, no
+button) ends with direction STOP and both pins LOW.  (Between the two iterations encoder interrupts keep the direction
+at STOP: `coverIsr_dir_stop`.) -/
+theorem stop_reaches_pins_at_next_iteration (p c o : Int) (evs : List Ev) (ms : Nat) :
+    let s := run (init p c o) evs
+    s.dir = .stop →
+    let t := step s (.tick ms)
+    t.dir = .stop ∧ t.pinOpen = false ∧ t.pinClose = false := by
+  intro s hs t
+  have hm : Motor s := run_motor evs _ (motor_init p c o)
+  have hm' : Motor { s with clk := s.clk + ms } := motor_of_mp (b := s) rfl hm
+  have hdir : t.dir = .stop := actions_none_dir_stop { s with clk := s.clk + ms } hs
+  obtain ⟨hpm, hprev, _, _⟩ := processDirection_motor { s with clk := s.clk + ms } (s.clk + ms) hm'
+  have hmp : mpOf t = mpOf (processDirection { s with clk := s.clk + ms } (s.clk + ms)) := by
+    show mpOf (actions { s with clk := s.clk + ms } none) = _
+    unfold actions
+    exact Eq.trans (mp_processStop _ _) (mp_ensureConsistency _ _)
+  have ht : Motor t := motor_of_mp hmp hpm
+  have hp : t.prevDir = .stop := (congrArg MP.prevDir hmp).trans (hprev.trans hs)
+  have := (motor_low_iff t ht).mpr hp
+  exact ⟨hdir, this.1, this.2⟩
+
+set_option maxRecDepth 100000 in
+example : (run (init 97 0 100) (raceWitness.take 6)).dir = .stop ∧ (run (init 97 0 100) (raceWitness.take 6)).pinClose = true := by
   decide
 
 set_option maxRecDepth 100000 in
-/-- COUNTEREXAMPLE to the full statement.  The ISR reaches the end point during `delay(100)` and sets
-`m_direction = STOP`; `process_direction` then copies the re-read volatile into `m_previous_direction`, so STOP is
-never seen as a change: right after `process_direction` the direction is STOP while the motor pin is HIGH, and it
-stays HIGH – through a `stop` command, through 600 ms without pulses (no emergency stop: `ensure_consistency` is
-skipped when the direction is STOP), past the end point by any amount. -/
-theorem pins_low_iff_stop_counterexample :
+/-- Regression witness of the defect fixed in the sketch ("does not lose a stop raised during the relay delay"):
+EEPROM (97, 0, 100), `open`, 4 encoder pulses inside the relay delay.  Right after that `process_direction` the
+direction is STOP (end point reached inside the delay), the pin is still HIGH and the previous direction is OPEN; the
+next loop iteration lowers the pins; at the end of the witness the motor is off and the position saved.  (With the
+sketch before the fix the model – regenerated with `prevDirRereadsVolatile = true` – kept the pin HIGH for ever.) -/
+theorem isr_stop_in_delay_regression :
     let s0 := run (init 97 0 100) (raceWitness.take 5)
     let s1 := processDirection (serialStep s0 10) s0.clk
-    (s1.dir = .stop ∧ s1.pinClose = true) ∧
+    (s1.dir = .stop ∧ s1.pinClose = true ∧ s1.prevDir = .opn ∧ s1.pos = 101) ∧
+    let s2 := run (init 97 0 100) (raceWitness.take 7)
+    (s2.dir = .stop ∧ s2.pinClose = false ∧ s2.pinOpen = false ∧ s2.prevDir = .stop ∧ s2.doStop = 120) ∧
     let t := run (init 97 0 100) raceWitness
-    (t.dir = .stop ∧ t.pinClose = true ∧ t.nEmergency = 0 ∧ t.pos = 103 ∧ t.opn = 100 ∧ t.nDispatch = 2 ∧
-      t.lastCmd = ascii "stop") := by
+    (t.dir = .stop ∧ t.pinClose = false ∧ t.run = .stop ∧ t.pos = 103 ∧ t.eePos = 103 ∧ t.nEmergency = 0) := by
   decide
-
-/-- ... and no later loop iteration, pulse or lapse of time ever lowers the pin: from a state with direction and
-previous direction STOP and the pin HIGH, every sequence of `quiet` events (loop iterations, time, encoder and water
-interrupts) leaves the pin HIGH and emits no emergency stop. -/
-theorem stuck_pin_stays_high (evs : List Ev) : ∀ (s : St), (∀ e ∈ evs, quiet e = true) →
-    s.dir = .stop → s.prevDir = .stop → s.pinClose = true →
-    (run s evs).pinClose = true ∧ (run s evs).dir = .stop ∧ (run s evs).nEmergency = s.nEmergency := by
-  induction evs with
-  | nil => intro s _ h1 _ h3; exact ⟨h3, h1, rfl⟩
-  | cons e es ih =>
-    intro s hq h1 h2 h3
-    have hq' : ∀ e ∈ es, quiet e = true := fun x hx => hq x (List.mem_cons_of_mem _ hx)
-    have hqe := hq e (List.mem_cons_self ..)
-    have key : (step s e).dir = .stop ∧ (step s e).prevDir = .stop ∧ (step s e).pinClose = true ∧
-        (step s e).nEmergency = s.nEmergency := by
-      have hact : ∀ a : St, a.dir = .stop → a.prevDir = .stop → a.pinClose = true →
-          (actions a none).dir = .stop ∧ (actions a none).prevDir = .stop ∧ (actions a none).pinClose = true ∧
-          (actions a none).nEmergency = a.nEmergency := by
-        intro a a1 a2 a3
-        unfold actions
-        have hpd : processDirection a a.clk = a := by
-          unfold processDirection; rw [if_neg (by simp [a1, a2])]
-        have hec : ensureConsistency a a.clk = a := by
-          unfold ensureConsistency; rw [if_neg (by simp [a1])]
-        simp only [hpd, hec]
-        obtain ⟨q1, q2, _, _, _, q6⟩ := processStop_same a a.clk
-        have q7 := congrArg MP.pinClose (mp_processStop a a.clk)
-        exact ⟨q1.trans a1, q2.trans a2, q7.trans a3, q6⟩
-      cases e with
-      | byte b => simp [quiet] at hqe
-      | btn k => simp [quiet] at hqe
-      | delayPulses k => simp [quiet] at hqe
-      | tick ms => exact hact { s with clk := s.clk + ms } h1 h2 h3
-      | adv ms => exact ⟨h1, h2, h3, rfl⟩
-      | pulse =>
-        obtain ⟨p, d, e, hd, _⟩ := coverIsr_cases s
-        show (coverIsr s).dir = _ ∧ (coverIsr s).prevDir = _ ∧ (coverIsr s).pinClose = _ ∧ (coverIsr s).nEmergency = _
-        rw [e]
-        refine ⟨?_, h2, h3, rfl⟩
-        rcases hd with hd | hd
-        · exact hd.trans h1
-        · exact hd
-      | wpulse =>
-        show (waterIsr s).dir = _ ∧ (waterIsr s).prevDir = _ ∧ (waterIsr s).pinClose = _ ∧ (waterIsr s).nEmergency = _
-        unfold waterIsr; (repeat' split) <;> exact ⟨h1, h2, h3, rfl⟩
-      | query => exact ⟨h1, h2, h3, rfl⟩
-    obtain ⟨k1, k2, k3, k4⟩ := key
-    obtain ⟨r1, r2, r3⟩ := ih (step s e) hq' k1 k2 k3
-    exact ⟨r1, r2, r3.trans k4⟩
-
-set_option maxRecDepth 100000 in
-example : let s := run (init 97 0 100) (raceWitness.take 6)
-    s.dir = .stop ∧ s.prevDir = .stop ∧ s.pinClose = true := by decide
 
 /-- An encoder interrupt (not debounced away, limits not being set) whose step brings the position to or beyond an
 end point sets the direction to STOP. -/
@@ -418,7 +391,7 @@ example : (ensureConsistency { init 50 0 100 with dir := .opn, prevDir := .opn, 
 stall window started at `m_previous_time`; then ANY sequence of loop iterations, lapses of time, encoder and water
 interrupts (no serial command, no button) with fewer than 10 encoder pulses since the window start, followed by a
 loop iteration later than 500 ms after the window start, ends with direction STOP.  (Detection latency: 500 ms +
-one loop period; the pins go LOW in the next iteration, `pins_low_iff_stop_partial`.) -/
+one loop period; the pins go LOW in the next iteration, `stop_reaches_pins_at_next_iteration`.) -/
 theorem stall_window_timed (s : St) (evs : List Ev) (ms : Nat)
     (hq : ∀ e ∈ evs, quiet e = true) (hd : s.dir ≠ .stop) (hpd : s.prevDir = s.dir)
     (hp0 : -1073741824 ≤ s.prevPos ∧ s.prevPos ≤ 1073741824)
@@ -447,44 +420,40 @@ theorem stop_command_sets_stop (s : St) (evs : List Ev) (hs : Empty (rbOf s)) (h
 
 example : bytesOf [.byte 115, .pulse, .byte 116, .byte 111, .tick 7, .byte 112] = ascii "stop" := by decide
 
-/-- PARTIAL (full statement: "... and the motor pins are LOW at the end of that iteration").  Proven when no encoder
-interrupt fired inside a relay delay since power-up; false otherwise (`pins_low_iff_stop_counterexample`: the
-witness contains a `stop` command after which the pin is still HIGH). -/
-theorem stop_command_lowers_pins_partial (p c o : Int) (pre evs : List Ev)
-    (hnd : noDelayPulses (pre ++ evs) = true) (hs : Empty (rbOf (run (init p c o) pre)))
-    (hev : bytesOf evs = ascii "stop") :
+/-- ... and the motor pins are LOW at the end of that very iteration, for EVERY history (interrupts inside earlier
+relay delays included). -/
+theorem stop_command_lowers_pins (p c o : Int) (pre evs : List Ev)
+    (hs : Empty (rbOf (run (init p c o) pre))) (hev : bytesOf evs = ascii "stop") :
     let t := run (init p c o) (pre ++ evs ++ [.byte 10])
     t.dir = .stop ∧ t.pinOpen = false ∧ t.pinClose = false := by
   intro t
   have ht : t = run (run (init p c o) pre) (evs ++ [.byte 10]) := by
     simp [t, run, List.foldl_append]
   have hdir : t.dir = .stop := by rw [ht]; exact stop_command_sets_stop _ evs hs hev
-  -- t = actions (..) none, and `actions` ends with prevDir = the direction process_direction saw = STOP
   obtain ⟨e1, e2⟩ := command_reaches_dispatch (run (init p c o) pre) (ascii "stop") evs hs (by decide) (by decide) hev
-  have hm0 : Motor (run (init p c o) (pre ++ evs)) := run_motor _ _ (motor_init p c o) hnd
+  have hm0 : Motor (run (init p c o) (pre ++ evs)) := run_motor _ _ (motor_init p c o)
   have hrun : run (init p c o) (pre ++ evs) = run (run (init p c o) pre) evs := by simp [run, List.foldl_append]
   rw [hrun] at hm0
   generalize run (run (init p c o) pre) evs = s1 at e1 e2 hm0
   have hd : (dispatchCore { s1 with idx := s1.idx + 1 }).dir = .stop := ((dispatchCore_table _).2.2.1 e2).2
   have hm1 : Motor (dispatchCore { s1 with idx := s1.idx + 1 }) :=
     motor_of_mp (Eq.trans (mp_dispatchCore _) (rfl : mpOf { s1 with idx := s1.idx + 1 } = mpOf s1)) hm0
-  have hpd := processDirection_motor (dispatchCore { s1 with idx := s1.idx + 1 })
+  obtain ⟨hpm, hprev, _, _⟩ := processDirection_motor (dispatchCore { s1 with idx := s1.idx + 1 })
     (dispatchCore { s1 with idx := s1.idx + 1 }).clk hm1
   have hmp : mpOf t = mpOf (processDirection (dispatchCore { s1 with idx := s1.idx + 1 })
       (dispatchCore { s1 with idx := s1.idx + 1 }).clk) := by
     rw [ht, e1]
     unfold actions
     exact Eq.trans (mp_processStop _ _) (mp_ensureConsistency _ _)
-  obtain ⟨⟨hpins, _⟩, _, hprev⟩ := hpd
-  rw [← hmp] at hpins
-  have hprev' : (mpOf t).prevDir = .stop := by rw [hmp]; exact hprev.trans hd
-  unfold PinsOK at hpins
-  rw [hprev'] at hpins
-  exact ⟨hdir, hpins.1, hpins.2⟩
+  have hmt : Motor t := motor_of_mp hmp hpm
+  have hp : t.prevDir = .stop := (congrArg MP.prevDir hmp).trans (hprev.trans hd)
+  have := (motor_low_iff t hmt).mpr hp
+  exact ⟨hdir, this.1, this.2⟩
 
-example : noDelayPulses ([Ev.tick 5] ++ [.byte 115, .byte 116, .byte 111, .byte 112]) = true ∧
-    Empty (rbOf (run (init 50 0 100) [Ev.tick 5])) := by
-  exact ⟨by decide, ⟨rfl, rfl, rfl, rfl⟩⟩
+set_option maxRecDepth 100000 in
+example : Empty (rbOf (run (init 97 0 100) (raceWitness.take 9))) ∧
+    bytesOf [Ev.byte 115, .byte 116, .byte 111, .byte 112] = ascii "stop" := by
+  exact ⟨⟨by decide, by decide, by decide, by decide⟩, by decide⟩
 
 /-! ## (d) The Python driver accepts the replies to the commands it sends
 
